@@ -38,6 +38,21 @@ def sliceTo {α} (s : List α) (j : Int) : GoM (List α) :=
 def slice {α} (s : List α) (i j : Int) : GoM (List α) :=
   if 0 ≤ i ∧ i ≤ j ∧ j ≤ len s then pure ((s.take j.toNat).drop i.toNat) else throw (.panic "slice bounds out of range")
 
+/-- `s[i] = v` -/
+def setIdx {α} (s : List α) (i : Int) (v : α) : GoM (List α) :=
+  if 0 ≤ i ∧ i < len s then pure (s.set i.toNat v) else throw (.panic "index out of range")
+
+/-- `make([]T, n)`: `n` zero values -/
+def makeSlice {α} (zero : α) (n : Int) : GoM (List α) :=
+  if 0 ≤ n then pure (List.replicate n.toNat zero) else throw (.panic "makeslice: len out of range")
+
+/-- `copy(dst[off:], src)`: the new `dst` and the number of elements copied, `min(len(dst)-off, len(src))` -/
+def copyInto {α} (dst : List α) (off : Int) (src : List α) : GoM (List α × Int) :=
+  if 0 ≤ off ∧ off ≤ len dst then
+    let n := min (dst.length - off.toNat) src.length
+    pure (dst.take off.toNat ++ src.take n ++ dst.drop (off.toNat + n), (n : Int))
+  else throw (.panic "slice bounds out of range")
+
 /-- one iteration of a loop body: go on with a new state, leave the loop, or return from the function -/
 inductive Step (σ ρ : Type)
   | next (s : σ)
